@@ -159,4 +159,4 @@ def run_R(ck: Check):
             for n in lens:
                 run(dict(fn='listlist', ns=[n] * k, pattern='random', seed=seed), f'listlist {k} passes of {n}')
                 run(dict(fn='listlist', ns=[n] * k + [0], pattern='all-equal', seed=seed), f'listlist {k} passes of {n} + empty')
-    ck.exhaustive = True
+    ck.exhaustive = False
